@@ -177,5 +177,20 @@ CLAIMED['C19'] = dict(
     technique="TLA+ policy state machine checked by TLC over all failing-cell subsets; all behaviours replayed on real "
               "operators; per-row traces validated by TLC",
     design="3/C19")
+CLAIMED['C02'] = dict(
+    text="Lazy.tla models a pipeline as demand-driven stages (map with lookahead, filter, expand, slice) with per-stage "
+         "want/got accounting; TLC checks for every composition up to depth 3 and every k that the source pulls never "
+         "exceed the composed Need(k) - an expression that does not mention the source length -, that nothing is pulled "
+         "before the first request, the stagewise bounds, and tightness. Spec->code: each of the 155 generated "
+         "compositions is instantiated with real petl operators of those classes over a pull-counting source of two lengths "
+         "(100 and 10 000 rows): construction pulls no data row, pulls for k = 1..6 are within the TLC-computed need and "
+         "identical at both lengths; the same is measured for ~100 streaming catalogue operators (hash joins on their probe "
+         "side) and for look/head/islice/repr as consumers. Code->spec: pull/yield event sequences of random deeper "
+         "pipelines are validated by LazyTrace.",
+    note="Blocking operators are outside the statement; sampling operators run with a fixed small sample size; the header "
+         "row is accounted separately from data rows.",
+    technique="TLA+ demand/pull model checked by TLC over all stage compositions; TLC-computed bounds replayed on real "
+              "operator compositions at two source lengths; pull/yield traces validated by TLC",
+    design="3/C02")
 
 NOT_APPLICABLE = {}
